@@ -773,6 +773,17 @@ func runMwBound(c *core.Ctx) {
 					}
 				}
 				if pred == nil {
+					// the quantifier written out: a private helper looping over the filters and
+					// answering true as soon as one exceeds the limit
+					if ok, d, n := existsLoopBound(fn, r.Block(), msgPath+".ReqFilters"); n >= 0 {
+						c.CountPaths(n)
+						detail = d
+						if !ok {
+							okAll = false
+							break
+						}
+						continue
+					}
 					okAll = false
 					detail = "rejection not controlled by ContainsFunc over the message's filters"
 					break
@@ -823,6 +834,66 @@ func runMwBound(c *core.Ctx) {
 			c.Check(okAll, nil, b.name, construct, pos, row.want+": the configured matcher applied to the message's event decides", "the rejection is not controlled by the configured matcher's verdict on the message's event with the polarity "+row.want)
 		}
 	}
+}
+
+// existsLoopBound: block b of fn is guarded by h(filters)=true where h is a
+// private helper that walks every element of its slice parameter and returns
+// true from inside the loop; the helper's verdict is then "some element's
+// *Limit ∈ (L,+∞)" iff its true-paths need that and its false-paths exclude
+// it. n<0: no such helper guards b.
+func existsLoopBound(fn *ssa.Function, b *ssa.BasicBlock, filtersPath string) (bool, string, int) {
+	for _, g := range an.Guards(fn, b) {
+		call, ok := g.V.(*ssa.Call)
+		if !ok || !g.True {
+			continue
+		}
+		h := an.StaticCallee(&call.Call)
+		if !an.PrivateHelper(h) || h.Signature.Results().Len() != 1 || len(h.Params) != len(call.Call.Args) {
+			continue
+		}
+		for i, a := range call.Call.Args {
+			if an.PathOf(a) != filtersPath {
+				continue
+			}
+			// the element read inside h's loop
+			var elem ssa.Value
+			an.Instrs(h, func(in ssa.Instruction) {
+				if u, ok := in.(*ssa.UnOp); ok && u.Op == token.MUL {
+					if ia, ok := u.X.(*ssa.IndexAddr); ok && an.Unwrap(ia.X) == ssa.Value(h.Params[i]) && an.InLoop(u.Block()) {
+						elem = u
+					}
+				}
+			})
+			if elem == nil {
+				continue
+			}
+			if all, why := forAllLoopAt(elem, elem.(ssa.Instruction).Block()); !all {
+				return false, "the helper deciding the rejection does not visit every filter: " + why, 0
+			}
+			sub := an.PathOf(elem) + ".Limit"
+			syms := symbolsFor(h, sub)
+			if len(syms) != 1 || !strings.Contains(syms[0], "recv.") {
+				return false, fmt.Sprintf("per-filter test compares %s with %v", sub, syms), 0
+			}
+			fr := an.SymFrame(sub, syms[0])
+			t, f, n, ok := fr.FuncBoolMeaning(h, 0, nonNilOnPath(sub), nil)
+			if !ok {
+				return false, "too many paths in the helper deciding the rejection", n
+			}
+			if fps, okp := an.ResultPaths(h, 0, false); okp {
+				for _, fp := range fps {
+					if an.InLoop(fp.Path[len(fp.Path)-1]) {
+						return false, "the helper can answer 'within the limit' before all filters were examined", n
+					}
+				}
+			}
+			if !t.Equal(an.Range(1, an.PosInf)) || !f.Intersect(an.Range(1, an.PosInf)).IsEmpty() {
+				return false, "helper true for *Limit ∈ " + t.Format("L") + ", false for " + f.Format("L") + ", want true exactly on (L,+∞)", n
+			}
+			return true, "some filter has *Limit ∈ " + t.Format("L") + " with L = " + syms[0], n
+		}
+	}
+	return false, "", -1
 }
 
 // ---------------------------------------------------------------- NIP-11
